@@ -263,6 +263,21 @@ func RunRouter(t *testing.T, p *plan.Plan, keepLog int) *Result {
 					Now:     s.Now,
 					Latency: func(n uint64) time.Duration { return s.Dur("redis-lat", n, us(rs.LatUs[0]), us(rs.LatUs[1])) },
 					Log:     func(kind, detail string) { s.Logf(kind, "%s", detail) },
+					WriteDelay: func(n uint64) time.Duration {
+						if p.Knobs.YieldDensity == 0 {
+							return 0
+						}
+						return s.Dur("redis-wr", n, 0, 40_000)
+					},
+					Report: func(detail string) {
+						s.Fail("C20", "released-memory-in-redis-command", "%s", detail)
+						s.Fail("C07", "cache-entry-corrupt", "the second-level cache was sent a %s", detail)
+					},
+				}
+				if rs.SlowGetUs[1] > 0 {
+					rc.GetLatency = func(n uint64) time.Duration {
+						return s.Dur("redis-getlat", n, us(rs.SlowGetUs[0]), us(rs.SlowGetUs[1]))
+					}
 				}
 				for _, d := range rs.DownUs {
 					rc.Down = append(rc.Down, vredis.Window{From: us(d[0]), To: us(d[1])})
